@@ -1618,7 +1618,7 @@ impl Archive {
 
         // Calculate encryption key if needed
         let key = if file_info.is_encrypted() {
-            let base_key = hash_string(name, hash_type::FILE_KEY);
+            let base_key = hash_string(crate::path::plain_file_name(name), hash_type::FILE_KEY);
             if file_info.has_fix_key() {
                 // Apply FIX_KEY modification
                 let file_pos = (file_info.file_pos - self.archive_offset) as u32;
@@ -1793,7 +1793,7 @@ impl Archive {
 
         // Calculate encryption key if needed
         let key = if file_info.is_encrypted() {
-            let base_key = hash_string(name, hash_type::FILE_KEY);
+            let base_key = hash_string(crate::path::plain_file_name(name), hash_type::FILE_KEY);
             if file_info.has_fix_key() {
                 // Apply FIX_KEY modification
                 let file_pos = (file_info.file_pos - self.archive_offset) as u32;
